@@ -61,6 +61,12 @@ pub fn seqs<T: Clone>(alphabet: &[T], depth: usize) -> Vec<Vec<T>> {
     out
 }
 
+/// Chronology on big benches: plus "every model was initialised" and "no bogus stall report".
+pub const TAGS_TIME_BIG: &[&str] = &[
+    "step_time", "time_backwards", "handler_time", "time_read", "sched_missed", "sched_dup", "sched_wrong_time", "sched_overdue", "cmd_time",
+    "pending_not_future", "init_missing", "report_exact", "error_class",
+];
+
 pub const TAGS_TIME: &[&str] = &[
     "step_time",
     "time_backwards",
@@ -189,6 +195,15 @@ pub fn c01(tier: &str) -> Vec<Family> {
     g.scenarios.retain(|s| s.label.starts_with("lag_above") || s.label.starts_with("lag_no_tolerance"));
     fams.push(g);
     fams.push(Family::new("far_future", TAGS_TIME, far_future_scenarios(&spec)));
+    // Many models, each arming an event on itself from init, on the real multi-threaded executor:
+    // a step that advances the time runs every action that was due.
+    let tickers = |n: usize| -> Arc<BenchSpec> {
+        let nodes: Vec<NodeSpec> = (0..n).map(|i| NodeSpec::new(&format!("t{}", i), 2).init(vec![sched_self(SKind::Once, When::Rel(1), 2, 0)]).script(2, vec![Op::ReadTime])).collect();
+        Arc::new(BenchSpec::new(nodes))
+    };
+    let sc_t: Vec<Scenario> = [200usize, 700].iter().map(|n| scn(format!("tickers/{}", n), &tickers(*n), vec![Cmd::Step, Cmd::Step])).collect();
+    fams.push(Family::new("many_models_mt2", TAGS_TIME_BIG, sc_t.clone()).uncontrolled(2, 2).hang_violation());
+    fams.push(Family::new("many_models_mt4", TAGS_TIME_BIG, sc_t).uncontrolled(4, 2).hang_violation());
     // Start times before the epoch (-7 s) and crossing it (-1 s + 999_999_998 ns).
     for (name, secs) in [
         ("driver_sequences@-1s", -1i64),
@@ -1053,6 +1068,27 @@ pub fn c07(tier: &str) -> Vec<Family> {
         }
     }
     fams.push(Family::new("mailbox_overflow", &["same_origin_order", "sched_missed"], sc3).cap(cap));
+    // Absolute and relative deadlines for the same instant, at ordinary and at extreme start times.
+    let alpha_e: Vec<Cmd> = vec![
+        Sched { node: 0, kind: SKind::Once, when: When::Abs(2), tag: 1, val: 1, slot: 0 },
+        Sched { node: 0, kind: SKind::Once, when: When::Rel(2), tag: 1, val: 2, slot: 0 },
+        SchedSrc { src: 0, kind: SKind::Once, when: When::Abs(2), tag: 1, val: 3, slot: 0 },
+        Sched { node: 0, kind: SKind::Keyed, when: When::Rel(2), tag: 1, val: 4, slot: 1 },
+        Sched { node: 0, kind: SKind::Periodic(1), when: When::Rel(1), tag: 1, val: 5, slot: 0 },
+        StepUntil(When::Rel(1)),
+    ];
+    for (name, secs) in [("abs_and_rel", 1000i64), ("abs_and_rel@-1s", -1), ("abs_and_rel@2^31", (1i64 << 31) - 1), ("abs_and_rel@2^33", (1i64 << 33) - 1), ("abs_and_rel@2^40", 1i64 << 40)] {
+        let mut sc_e = vec![];
+        for (i, mut cmds) in seqs(&alpha_e, 4).into_iter().enumerate() {
+            // Relative deadlines are given for the start time: no stepping before the last request.
+            if cmds.iter().filter(|c| !matches!(c, StepUntil(_))).count() < 2 || cmds.iter().any(|c| matches!(c, StepUntil(_))) {
+                continue;
+            }
+            cmds.push(StepUntil(When::Abs(3)));
+            sc_e.push(scn(format!("mixed#{}", i), &spec, cmds));
+        }
+        fams.push(Family::new(name, &["same_origin_order", "sched_missed", "sched_wrong_time"], sc_e).cap(cap).epoch(secs));
+    }
     fams
 }
 
